@@ -1324,6 +1324,7 @@ def build_part(doc):
     for st in doc["staves"]:
         part.add(S.Clef(st["n"], st["clef"][0], st["clef"][1], 0), 0)
     rows = {}
+    vmap = {}     # note id -> (staff index, layer index) of the abstract part
     k = 0
     todo = []     # (start, member index, voice, object, end)
     tuplets = []
@@ -1377,6 +1378,7 @@ def build_part(doc):
                         todo.append((a, j, voice, o_, b))
                         these.append(o_)
                         rows["n%d" % k] = (F(a, divs), F(b - a, divs), p[0], a0(p[1]), p[2], sts[j])
+                        vmap["n%d" % k] = (si, li)
                     if prev is not None:
                         for x, y in zip(prev, these):
                             x.tie_next = y
@@ -1397,7 +1399,7 @@ def build_part(doc):
     for mi, t in enumerate(den["mstarts"]):
         end = den["mstarts"][mi + 1] if mi + 1 < len(den["mstarts"]) else den["end"]
         part.add(S.Measure(number=mi + 1), int(t * divs), int(end * divs))
-    return part, rows
+    return part, rows, vmap
 
 
 def mei_staff_attrs(text):
@@ -1425,7 +1427,7 @@ def export_roundtrip(doc, fmt, want_obs=False):
     import partitura as pt
     import partitura.score as S
     try:
-        part, rows = build_part(doc)
+        part, rows, vmap = build_part(doc)
     except Exception as ex:
         return ("builderr", "%s: %s" % (type(ex).__name__, ex))
     name = (doc.get("xopts") or {}).get("fname") or "export"
@@ -1451,12 +1453,14 @@ def export_roundtrip(doc, fmt, want_obs=False):
                 obs.append((pi, n.id, n.voice, int(n.start.t), int(n.end.t), dv, n.staff))
     with open(path) as f:
         text = f.read()
-    return ("ok", rows, got, text, (len(sc.parts), obs))
+    return ("ok", rows, got, text, (len(sc.parts), obs, vmap))
 
 
 def export_diff(fmt, rows, got):
     """Direct oracle of the export clause: list of differences (empty = every note kept onset, duration, pitch, staff)."""
     bad = []
+    if fmt == "mei" and got and not any(r[0] in rows for r in got):
+        fmt = "kern"    # no id survived: compare as a multiset (ids are not an observable of the property)
     if fmt == "mei":
         g = {}
         for r in got:
@@ -1978,7 +1982,7 @@ def run_export(ctx, n, ok):
                     attrs = mei_staff_attrs(r[3])
                     loaded = {g[0]: g[6] for g in r[2]}
                     for nid in sorted(r[1], key=lambda x: int(x[1:])):
-                        if nid in attrs and attrs[nid][2] is not None:
+                        if nid in attrs and nid in loaded and attrs[nid][2] is not None:
                             na, ca, en = attrs[nid]
                             scases.append(ctuple([coptz(na), coptz(ca), cz(int(en)),
                                                   cz(loaded[nid]), cz(r[1][nid][5])]))
@@ -2037,11 +2041,16 @@ def describe_export_failure(doc, fmt, r, bad):
 
 
 def c_xcase(doc, fmt, loaded):
-    nparts, obs = loaded
+    nparts, obs, vmap = loaded
     by_voice = {}
     if fmt == "mei":
+        # save_mei keeps the note ids: the reloaded notes are attributed to the voices of the abstract part by id
+        # (the layer numbers of the file are not an observable of the export clause)
         for pi, nid, voice, a, b, dv, staff in obs:
-            by_voice.setdefault(voice, []).append((a, b, dv))
+            if nid not in vmap:
+                return None
+            si_, li_ = vmap[nid]
+            by_voice.setdefault(voice_of(doc, si_, li_), []).append((a, b, dv))
     else:
         pairs = spine_pairs(doc)
         if nparts != len(pairs):
